@@ -35,6 +35,7 @@ type c01cfg struct {
 	pStray   int
 	pDelay   int
 	pDrop    int
+	pTC, pTCPFail int
 	wrap     bool
 	surplus  bool
 	maxCQ    int
@@ -66,6 +67,10 @@ func c01Setup(rc *RunCtx) simrt.Config {
 	if !c.kind.stream() {
 		c.pDrop = []int{0, 0, 20}[r.Choose(3)]
 	}
+	if c.kind == TkUDP {
+		c.pTC = []int{0, 30, 60}[r.Choose(3)]
+		c.pTCPFail = []int{0, 50}[r.Choose(2)]
+	}
 	if c.kind == TkPipelineStream || c.kind == TkPipelineDgram {
 		c.wrap = r.Choose(3) == 0
 		if c.wrap {
@@ -88,6 +93,7 @@ func c01Setup(rc *RunCtx) simrt.Config {
 	rc.Cfg["p_stray"] = c.pStray
 	rc.Cfg["p_delay"] = c.pDelay
 	rc.Cfg["p_drop"] = c.pDrop
+	rc.Cfg["p_tc"] = c.pTC
 	rc.Cfg["wrap"] = c.wrap
 	rc.Cfg["surplus"] = c.surplus
 	rc.Cfg["max_cq"] = c.maxCQ
@@ -117,6 +123,18 @@ func c01Main(rc *RunCtx) {
 		}
 		if simrt.Choose(100) < c.pDrop {
 			a.NoReply = true
+		}
+		if c.kind == TkUDP && !sc.Stream && simrt.Choose(100) < c.pTC {
+			a.TC = true // udp:// falls back to TCP, whose server answers or dies (below)
+			simrt.Fault("udp_reply_truncated")
+		}
+		if c.kind == TkUDP && sc.Stream {
+			// the TCP fallback connection is non-pipelined: one reply per query (scope)
+			a.Stray, a.Dup = false, 0
+		}
+		if c.kind == TkUDP && sc.Stream && simrt.Choose(100) < c.pTCPFail {
+			a.CloseBefore = true
+			simrt.Fault("tcp_fallback_dies")
 		}
 		return a
 	}
